@@ -22,6 +22,7 @@ BINARIES = {
     "flow": ("zzverif/cmd/flow", False),
     "nf5": ("zzverif/cmd/nf5", False),
     "crash": ("zzverif/cmd/crash", False),
+    "crash_386": ("zzverif/cmd/crash", False, "386"),  # the same harness for a 32-bit platform
     "sflowc": ("zzverif/cmd/sflowc", False),
     "c20": ("zzverif/cmd/c20", False),
     "cachefile": ("zzverif/cmd/cachefile", False),
@@ -214,6 +215,13 @@ def crash_check(pid, tier, alloc):
               "small-scope: datagrams up to a few hundred octets, plus the dense spaces (up to 65000 octets of minimal units) and one 65507-octet NetFlow v5 case; templates for two ids",
               "a panic is caught in-process; a fatal error, an out-of-memory kill (RLIMIT_AS 3 GiB) or 15 s without progress on a microsecond-scale case is re-run alone twice before it is reported"]
     if not alloc:
+        # 32-bit platforms (int is 32 bits wide: length and count fields above 2^31 become negative there): the grammar
+        # spaces of the protocols with 32-bit length fields on a GOARCH=386 build; the flow grammars in the thorough tier
+        b32 = build("crash_386")
+        for sp in ["sflow.grec", "sflow.graw", "sflow.ghdr", "sflow.dense", "v5.grammar"] + (["ipfix.grammar", "v9.grammar", "ipfix.dense", "v9.dense"] if tier == "thorough" else []):
+            r = run_space(b32, sp, "quick", hang_s=15)
+            r.space += "@386"
+            res.append(r)
         # "never terminates the process" with the collector's own concurrency: fatal errors such as concurrent
         # map writes exist only with two workers (the sequential sweeps above cannot see them)
         d, env = sched_env("c01")
@@ -226,6 +234,7 @@ def crash_check(pid, tier, alloc):
                    "records <= octets is checked on every case"]
     rule = CRASH_RULE
     if not alloc:
+        rule += " The sFlow and NetFlow v5 grammar spaces (thorough: also the IPFIX / v9 ones) are repeated on a GOARCH=386 build (int is 32 bits wide there)."
         rule += " pipe.c01: per protocol the real receive loop and TWO workers under the controlled scheduler (deviation bound 1, thorough 2) on good, truncated and wrong-version datagrams of two exporters, cached templates used by both workers, an unknown template and an in-band announcement, templates loaded from a cache file: no panic, no fatal error, no race report (a data race on the template map is a process-terminating fatal error in Go)."
     return finish(pid, tier, res, rule=rule, assumptions=assume, t0=t0)
 
